@@ -29,7 +29,11 @@ def run_property(prop, tier, seed, only=None, verbose=False):
     obligations = []
     for c in contracts:
         try:
-            cr = generate(c)
+            if getattr(c, 'native', False):
+                from pyvc.native import generate_native
+                cr = generate_native(c)
+            else:
+                cr = generate(c)
         except Exception as e:
             from pyvc.contract import ContractResult
             cr = ContractResult(c)
@@ -46,7 +50,7 @@ def run_property(prop, tier, seed, only=None, verbose=False):
     if extra:
         extra_info = extra(tier, seed)
         obligations += extra_info.get('obligations', [])
-    discharge.discharge(obligations, timeout_ms=timeout_ms, fallbacks=True)
+    discharge.discharge([o for o in obligations if not getattr(o, 'decided', False)], timeout_ms=timeout_ms, fallbacks=True)
     refute_bounded(obligations, verbose, bound=getattr(mod, 'REFUTE_BOUND', 3))
     return report.conclude(prop, tier, seed, mod, cresults, obligations, time.time() - t0, extra_info, verbose=verbose)
 
